@@ -71,3 +71,42 @@ class MergeCovers:
     def claim(any_ones, all_ones, all_selected, key, mask):
         m = all_selected & ~(any_ones ^ all_ones)
         return forall_keys(lambda k: implies(matches(k, key, mask), (k & m) == (all_ones & m)))
+
+
+# ---- default-route removal: the per-entry decision ------------------------------------------------
+from pyvc.values import TSmallSet, TRec, TSeq   # noqa: E402
+from pyvc.speclib import forall_range, select, seq_len   # noqa: E402
+
+ROUTES = list(range(24))
+ENTRY = TRec("RoutingTableEntry", route=TSmallSet(ROUTES), key=KEY, mask=KEY, sources=TSmallSet([None] + ROUTES))
+TABLE = TSeq(ENTRY)
+
+
+def straight_through(entry):
+    """arrives from exactly one known link and leaves by exactly the opposite link"""
+    return (len(entry.sources) == 1 and None not in entry.sources and len(entry.route) == 1
+            and any(s in entry.sources and ((s + 3) % 6) in entry.route for s in range(6)))
+
+
+def _mk_entry(e):
+    from rig.routing_table import RoutingTableEntry, Routes
+    return RoutingTableEntry({Routes(r) for r in e.route}, e.key, e.mask, {None if s is None else Routes(s) for s in e.sources})
+
+
+@contract("rig/routing_table/remove_default_routes.py::_is_defaultable")
+class IsDefaultable:
+    properties = ("C04",)
+    params = dict(i=TInt(0, None), entry=ENTRY, table=TABLE, check_for_aliases=TBool())
+    options = {"int_class": "rig/routing_table/entries.py::Routes", "no_merge": True}
+
+    def native(i, entry, table, check_for_aliases):
+        from rig.routing_table.remove_default_routes import _is_defaultable
+        return _is_defaultable(i, _mk_entry(entry), [_mk_entry(e) for e in table], check_for_aliases)
+
+    def requires(i, entry, table, check_for_aliases):
+        return well_formed(entry.key, entry.mask)
+
+    def ensures_removable_iff_hardware_default_routing_does_the_same(i, entry, table, check_for_aliases, result):
+        # ... and (when asked to check) no LATER entry can match a key this entry matches
+        return iff(result, straight_through(entry) and (not check_for_aliases or forall_range(
+            i + 1, seq_len(table), lambda j: (entry.key & select(table, j).mask) != (select(table, j).key & entry.mask))))
